@@ -20,13 +20,14 @@ import (
 	"time"
 
 	"github.com/olric-data/olric/internal/kvstore/table"
-	"github.com/olric-data/olric/pkg/storage"
 )
 
 func (k *KVStore) evictTable(t *table.Table) error {
 	var total int
 	var evictErr error
-	t.Range(func(hkey uint64, e storage.Entry) bool {
+	// Walk over the hkeys only. Table.Range loads every entry with Table.Get, which counts as an access and
+	// stamps the entry with the current time before it is copied: compaction must not make idle keys look fresh.
+	t.RangeHKey(func(hkey uint64) bool {
 		entry, _ := t.GetRaw(hkey)
 		err := k.PutRaw(hkey, entry)
 		if errors.Is(err, table.ErrNotEnoughSpace) {
